@@ -423,7 +423,7 @@ O("C09.dly", ["C09", "C16", "C01"], "h_C09.c", "h_C09_dly",
   replace=["bi447_next", "bui31_next", "bi31_next", "echs_scale_ndim", "echs_scale_wday", "echs_instant_rescale", "make_enum", "rrul_fill_wly"],
   replace_status={"bi447_next": "discharged by C19.bi447_next", "bui31_next": "discharged by C19.bui31_next", "bi31_next": "discharged by C19.bi31_next",
                   "echs_scale_ndim": "discharged for the Gregorian scale by C15.dispatch/C15.greg", "echs_scale_wday": "discharged by C15.dispatch/C15.greg",
-                  "echs_instant_rescale": "identity on the Gregorian scale (C15.rescale.*)", "make_enum": "trusted: 1..24/60/60 entries (not discharged)", "rrul_fill_wly": "trusted: returns <= nti (not discharged)"},
+                  "echs_instant_rescale": "identity on the Gregorian scale (C15.rescale.*)", "make_enum": "discharged by C09.make_enum (1..24/60/61 entries) for rules the parser lets through (C09.snarf_rrule.*)", "rrul_fill_wly": "trusted: returns <= nti (not discharged)"},
   solver=["minisat"], mem_gb=28, timeout={"quick": 1500, "thorough": 7200}, replay=False, replay_note="callees replaced by contracts",
   defines=["-DRR_INTER_MAX=64U"])
 # C17.shift.days (harness h_C17_shift_days exists): out of memory / no answer at |N| <= 62 (both halves of shift() and the
@@ -477,12 +477,52 @@ for fn, ent in (("BinaryFirst", "h_C20_binary_first"), ("BinaryLast", "h_C20_bin
     O("C20.%s" % fn, "C20", "h_C20.c", ent,
       "%s (binary search of the sort) over an array of any length up to 2^20: reads only inside the range, returns an index in [start, end], terminates (inductive loop contract), writes nothing" % fn,
       [fn], dfcc=True, enforce=fn, loop_contracts=True, solver=["minisat", "kissat"], timeout={"quick": 600, "thorough": 1800}, replay=False, replay_note="frame variant (is_fresh inputs)")
+for oid, fn, ent, extra, defs in (("MergeInPlace.rev", "MergeInPlace", "h_C20_merge_in_place", "rotation by three reversals (no cache)", ["-DMERGE_CSZ=0", "-DMERGE_L=2"]),
+                      ("MergeInPlace.cache", "MergeInPlace", "h_C20_merge_in_place", "rotation through the cache", ["-DMERGE_CSZ=2", "-DMERGE_L=2"]),
+                      ("MergeExternal", "MergeExternal", "h_C20_merge_external", "A copied to the cache by the caller", []),
+                      ("MergeInternal", "MergeInternal", "h_C20_merge_internal", "A swapped into the internal buffer by the caller; the buffer keeps its own elements in some order", [])):
+    O("C20.%s" % oid, "C20", "h_C20e.c", ent,
+      "%s of the event sort on two adjacent sorted ranges of 0..%d symbolic events each (%s): the result is ordered, holds exactly the inputs moved whole, equal elements keep their order, nothing else moves" % (fn, 2 if defs else 3, extra),
+      [fn, "Rotate", "Reverse", "BlockSwap", "BinaryFirst", "BinaryLast"], kind="bounded", bound="each range 0..%d elements" % (2 if defs else 3), defines=defs,
+      unwind=5, cbmc_flags=["--unwindset", "h_merge_setup.0:11,h_merge_check.0:8,h_merge_frame.0:11,h_C20_merge_internal.1:11"],
+      assumptions=["memcpy/memmove modelled as element-wise copies of whole events (CBMC's own models run out of memory on a symbolic length); the native replay uses libc's"],
+      tiers=["thorough"] if defs else ["quick", "thorough"],
+      mem_gb=28, solver=["minisat", "kissat", "cadical"], timeout={"quick": 900, "thorough": 2400}, native_srcs=["instant.c"])
+O("C09.make_enum", ["C09"], "h_C09e.c", "h_C09_make_enum",
+  "make_enum (the time-of-day arrays every filler indexes): for every BYHOUR within 0..23, BYMINUTE within 0..59, BYSECOND within 0..60 and every DTSTART time it writes inside its three arrays, yields 1..24 / 1..60 / 1..61 entries, each a member of its BYxxx set (DTSTART's value when the set is empty), strictly increasing; the loops terminate",
+  ["make_enum"], dfcc=True, loop_contracts=True, replace=["bui31_next", "bui63_next"],
+  replace_status={"bui31_next": "discharged by C19.bui31_next", "bui63_next": "discharged by C19.bui63_next"},
+  solver=["minisat", "kissat", "cadical"], timeout={"quick": 900, "thorough": 1800}, replay=False, replay_note="iterators replaced by contracts")
+for k, (key, what) in enumerate((("BYMONTH", "1..12"), ("BYHOUR", "0..23"), ("BYMINUTE", "0..59"), ("BYSECOND", "0..60"), ("INTERVAL", ">= 1"), ("BYMONTHDAY", "+-1..31"), ("BYWEEKNO", "+-1..53"))):
+    O("C09.snarf_rrule.%s" % key, ["C09"], "h_C09p.c", "h_C09_snarf_rrule",
+      "snarf_rrule: whatever three numbers stand behind %s, the rule's containers stay well-formed and hold exactly the listed values within %s - the precondition of C09.make_enum and the filler obligations" % (key, what),
+      ["snarf_rrule", "ass_bui31", "ass_bui63", "ass_bi31", "ass_bi63", "__evrrul_key"], defines=['-DRRKEY="%s"' % key, "-DRRK=%d" % k],
+      unwind=40, solver=["minisat", "kissat", "cadical"], timeout={"quick": 900, "thorough": 1800},
+      native_srcs=[x for x in LIBECHSE if x != "evical.c"], native_libs=["-lltdl", "-lm"],
+      assumptions=["strtol/strtoul/atol replaced by stubs returning an arbitrary long and stepping over the digits (libc number reading trusted)",
+                   "rule text is the concrete layout FREQ=DAILY;%s=n,n,n with symbolic values n" % key])
 O("C09.wly", ["C09", "C16", "C01"], "h_C09.c", "h_C09_wly",
   "rrul_fill_wly (Gregorian scale): memory safe incl. the weekday-increment table and the time-of-day enumeration, returns <= nti and <= COUNT, every loop terminates, occurrences within [DTSTART, UNTIL] - for every valid DTSTART, every well-formed container state, INTERVAL 1..64",
   ["rrul_fill_wly"], dfcc=True, loop_contracts=True, with_unwind=True,
   replace=["bi447_next", "bui31_next", "echs_scale_ndim", "echs_scale_wday", "echs_instant_rescale", "make_enum"],
   replace_status={"bi447_next": "discharged by C19.bi447_next", "bui31_next": "discharged by C19.bui31_next",
                   "echs_scale_ndim": "discharged for the Gregorian scale by C15.dispatch/C15.greg", "echs_scale_wday": "discharged by C15.dispatch/C15.greg",
-                  "echs_instant_rescale": "identity on the Gregorian scale (C15.rescale.*)", "make_enum": "trusted: 1..24/60/60 entries (not discharged)"},
+                  "echs_instant_rescale": "identity on the Gregorian scale (C15.rescale.*)", "make_enum": "discharged by C09.make_enum (1..24/60/61 entries) for rules the parser lets through (C09.snarf_rrule.*)"},
+  solver=["minisat"], mem_gb=28, timeout={"quick": 1500, "thorough": 7200}, replay=False, replay_note="callees replaced by contracts",
+  defines=["-DRR_INTER_MAX=64U"])
+O("C09.Hly", ["C09", "C16", "C01"], "h_C09.c", "h_C09_Hly",
+  "rrul_fill_Hly: memory safe incl. the minute/second enumeration and the BYYEARDAY walk, returns <= nti and <= COUNT, every loop terminates (weekday stays in Mon..Sun, the cursor strictly advances), occurrences within [DTSTART, UNTIL] - for every valid DTSTART, every well-formed container state, INTERVAL 1..64",
+  ["rrul_fill_Hly"], dfcc=True, loop_contracts=True, with_unwind=True,
+  replace=["bi447_next", "bi383_next", "bui31_next", "bi31_next", "ymd_get_wday", "__get_ndom", "make_enum"],
+  replace_status={"bi447_next": "discharged by C19.bi447_next", "bi383_next": "discharged by C19.bi383_next", "bui31_next": "discharged by C19.bui31_next", "bi31_next": "discharged by C19.bi31_next",
+                  "ymd_get_wday": "discharged by C01.k.wday", "__get_ndom": "discharged by C01.k.wday", "make_enum": "discharged by C09.make_enum (1..24/60/61 entries) for rules the parser lets through (C09.snarf_rrule.*)"},
+  solver=["minisat"], mem_gb=28, timeout={"quick": 1500, "thorough": 7200}, replay=False, replay_note="callees replaced by contracts",
+  defines=["-DRR_INTER_MAX=64U"])
+O("C09.Mly", ["C09", "C16", "C01"], "h_C09.c", "h_C09_Mly",
+  "rrul_fill_Mly: memory safe incl. the second enumeration, returns <= nti and <= COUNT, every loop terminates, occurrences within [DTSTART, UNTIL] - for every valid DTSTART, every well-formed container state, INTERVAL 1..64",
+  ["rrul_fill_Mly"], dfcc=True, loop_contracts=True, with_unwind=True,
+  replace=["bi447_next", "bui31_next", "bi31_next", "bui63_next", "ymd_get_wday", "__get_ndom", "make_enum"],
+  replace_status={"bi447_next": "discharged by C19.bi447_next", "bui31_next": "discharged by C19.bui31_next", "bi31_next": "discharged by C19.bi31_next", "bui63_next": "discharged by C19.bui63_next",
+                  "ymd_get_wday": "discharged by C01.k.wday", "__get_ndom": "discharged by C01.k.wday", "make_enum": "discharged by C09.make_enum (1..24/60/61 entries) for rules the parser lets through (C09.snarf_rrule.*)"},
   solver=["minisat"], mem_gb=28, timeout={"quick": 1500, "thorough": 7200}, replay=False, replay_note="callees replaced by contracts",
   defines=["-DRR_INTER_MAX=64U"])
